@@ -3,6 +3,8 @@
 
 use crate::monitors::access::AccessMonitor;
 use crate::monitors::apps::{AppCallMonitor, HoldMonitor};
+use crate::monitors::gap::GapMonitor;
+use crate::monitors::handover::HandoverMonitor;
 use crate::monitors::dp::{dp_apps, BringupMonitor, CycleMonitor, FcbMonitor, ImageMonitor, LivenessMonitor};
 use crate::monitors::ring::RingMonitor;
 use crate::rng::Fnv;
@@ -55,6 +57,12 @@ pub fn build_monitors(sc: &Scenario, w: &World) -> Vec<Box<dyn Monitor>> {
         "C02" => {
             m.push(Box::new(RingMonitor::new("C02", w, o.quiet_from_us, o.bound_us, o.stable_us, false)));
         }
+        "C11" => {
+            m.push(Box::new(HandoverMonitor::new("C11", w)));
+        }
+        "C12" => {
+            m.push(Box::new(GapMonitor::new("C12", w)));
+        }
         "C06" => {
             m.push(Box::new(RingMonitor::new("C06", w, o.quiet_from_us, o.bound_us, o.stable_us, true)));
         }
@@ -102,6 +110,8 @@ pub fn nontrivial(check: &str, s: &Stats) -> bool {
         "C01" => s.get("access.tokens") >= 20 && s.get("access.distinct_token_senders") >= 2,
         "C02" => s.get("ring.converged") >= 1 && s.get("ring.tokens_in_stable") >= 10,
         "C06" => s.get("ring.converged") >= 1 && faults_fired(s) >= 1,
+        "C11" => s.get("handover.accepted_from_predecessor") + s.get("probe.token_accepted_from_new_predecessor_on_second_offer") >= 2 && s.get("handover.claims") >= 1,
+        "C12" => s.get("gap.polls") >= 10 && (s.get("probe.status_reply_not_ready") + s.get("probe.status_reply_ready") + s.get("probe.status_reply_in_ring") >= 1 || s.get("gap.sweeps_with_wait_checked") >= 1),
         "C13" => s.get("hold.requests_checked_against_hold_time") >= 5 && s.get("hold.rotations_checked") >= 5,
         "C15" => s.get("apps.requests_sent") >= 10 && s.get("apps.round_robin_steps_checked") >= 10,
         "C03" => s.get("dp.bringups_completed") >= 1 && s.get("dp.requests.data_exchange") >= 5 && faults_fired(s) >= 1,
@@ -138,6 +148,7 @@ pub fn run_scenario_full(sc: &Scenario, verbose: bool) -> (RunResult, Vec<(usize
         if let Some(p) = &s.phy {
             stats.add("rx.consumed", p.stat_consumed);
             stats.add("rx.discards", p.stat_discards);
+            stats.add("rx.flushes_on_slot_expiry", p.stat_flushes);
             stats.add("probe.more_than_one_telegram_in_buffer", p.stat_multi_in_buffer);
         }
     }
@@ -205,6 +216,7 @@ pub fn default_runs(check: &str, tier: Tier) -> u64 {
         "C02" => (1200, 20_000),
         "C03" | "C04" | "C08" | "C14" => (3000, 150_000),
         "C06" => (1500, 30_000),
+        "C11" | "C12" => (3000, 60_000),
         "C13" | "C15" => (1500, 30_000),
         "C07" => (2500, 80_000),
         _ => (1000, 20_000),
@@ -222,6 +234,8 @@ pub fn hang_is_violation(check: &str) -> bool {
 pub fn probe_names(check: &str) -> Vec<&'static str> {
     match check {
         "C01" | "C02" => vec!["probe.more_than_one_telegram_in_buffer", "probe.self_offline_address_collision"],
+        "C11" => vec!["probe.token_accepted_from_new_predecessor_on_second_offer", "probe.second_pass_attempt", "probe.third_pass_attempt", "probe.successor_removed", "probe.token_passed_to_self"],
+        "C12" => vec!["probe.gap_poll_discovered_a_master", "probe.status_reply_not_ready", "probe.status_reply_ready", "probe.status_reply_in_ring"],
         "C06" => vec!["probe.self_offline_address_collision", "probe.more_than_one_telegram_in_buffer"],
         "C13" => vec!["probe.hold_time_already_over_at_first_cycle"],
         "C15" => vec!["probe.request_abandoned_with_token_loss", "probe.all_of_several_applications_declined_in_one_visit"],
@@ -238,6 +252,8 @@ pub fn rule_of(check: &str) -> String {
     let nt = match check {
         "C01" => "Non-trivial = at least 20 token telegrams were sent by at least 2 different real stations (a ring existed and circulated).",
         "C02" => "Non-trivial = agreement was reached and at least 10 token passes were checked for order during the stability window.",
+        "C11" => "Non-trivial = the station claimed the token at least once and accepted a token from another station at least twice.",
+        "C12" => "Non-trivial = at least 10 GAP polls were judged and at least one status reply of a real station or one complete wait between sweeps was checked.",
         "C06" => "Non-trivial = at least one injected fault fired and the remaining stations reached agreement again afterwards.",
         "C13" => "Non-trivial = at least 5 application requests were checked against the hold time and at least 5 rotations against the rotation bound.",
         "C15" => "Non-trivial = at least 10 application requests were sent and at least 10 round-robin steps were checked.",
